@@ -21,6 +21,18 @@ func init() {
 	Register(&Scenario{Prop: "C09", Name: "rename-vs-create", Strict: true, Quick: 3, Thorough: 4, Run: runC09RenameVsCreate})
 	Register(&Scenario{Prop: "C09", Name: "delete-repo", Strict: true, Quick: 4, Thorough: 4, Run: func(rc *RunCtx) *simkit.Violation { return runC09Ops(rc, "delete") }})
 	Register(&Scenario{Prop: "C09", Name: "rename-repo", Strict: true, Quick: 4, Thorough: 4, Run: func(rc *RunCtx) *simkit.Violation { return runC09Ops(rc, "rename") }})
+	// one store error at a tape-chosen call of the delete / the rename (half of the time the read of a bundle descriptor): the
+	// operation may fail and say so; one that reports success has done all of it and nothing else
+	Register(&Scenario{Prop: "C09", Name: "delete-repo-one-store-error", Strict: false, Quick: 2, Thorough: 3, Run: func(rc *RunCtx) *simkit.Violation {
+		c09StoreErr = true
+		defer func() { c09StoreErr = false }()
+		return runC09Ops(rc, "delete")
+	}})
+	Register(&Scenario{Prop: "C09", Name: "rename-repo-one-store-error", Strict: false, Quick: 2, Thorough: 3, Run: func(rc *RunCtx) *simkit.Violation {
+		c09StoreErr = true
+		defer func() { c09StoreErr = false }()
+		return runC09Ops(rc, "rename")
+	}})
 	Register(&Scenario{Prop: "C09", Name: "delete-files", Strict: true, Quick: 4, Thorough: 4, Run: func(rc *RunCtx) *simkit.Violation { return runC09Ops(rc, "delete-files") }})
 	Register(&Scenario{Prop: "C09", Name: "delete-files-multi-index", Strict: false, Quick: 0, Thorough: 1, Run: func(rc *RunCtx) *simkit.Violation { return runC09Ops(rc, "delete-files-big") }})
 }
@@ -306,6 +318,39 @@ func diffSnap(before, after map[string][]byte) string {
 	return ""
 }
 
+var c09StoreErr bool
+
+// c09PlanStoreErr places one store error in the actor's coming operation.
+func c09PlanStoreErr(w *simkit.World, t *simkit.Tape, actor *simkit.Client) {
+	if !c09StoreErr {
+		return
+	}
+	pl := &simkit.Planned{Client: actor.Name, Kind: simkit.FErr, Any: true, Nth: actor.Calls + t.Range(0, 30)}
+	if t.Bool(1, 2) {
+		nth, n := t.Range(0, 3), 0
+		pl = &simkit.Planned{Client: actor.Name, Kind: simkit.FErr, Match: func(c *simkit.Call) bool {
+			if c.Op != simkit.OpGet || !strings.HasSuffix(c.Key, "/bundle.yaml") {
+				return false
+			}
+			n++
+			return n-1 == nth
+		}}
+	}
+	w.Faults = &simkit.FaultCfg{Plan: []*simkit.Planned{pl}}
+}
+
+// c09FailedDelete is the key whose Delete met the injected store error ("" if none): DeleteRepo and DeleteBundle go on
+// after a failed deletion by design (they are given "ignore errors"), so that one object may stay behind - an observation
+// of DESIGN.md, not the silent skipping of a whole bundle that the configuration is after.
+func c09FailedDelete(w *simkit.World) string {
+	for _, e := range w.History {
+		if e.Fault == simkit.FErr && e.Op == simkit.OpDelete {
+			return e.Key
+		}
+	}
+	return ""
+}
+
 func runC09Ops(rc *RunCtx, op string) *simkit.Violation {
 	const prop = "C09"
 	w := rc.W
@@ -381,6 +426,7 @@ func runC09Ops(rc *RunCtx, op string) *simkit.Violation {
 	case "delete":
 		before := snapshotExcept(d, target.Name)
 		w.Note("repos %v; DeleteRepo(%s) with %d bundles %d labels", order, target.Name, len(target.Bundles), len(target.Labels))
+		c09PlanStoreErr(w, t, actor)
 		tk := w.Go(actor, "delete-repo", func() (interface{}, error) { return nil, core.DeleteRepo(target.Name, st) })
 		if v := w.Run(); v != nil {
 			v.Property = prop
@@ -389,12 +435,24 @@ func runC09Ops(rc *RunCtx, op string) *simkit.Violation {
 		if pv := taskProblem(prop, tk, "DeleteRepo"); pv != nil {
 			return pv
 		}
+		w.Faults = nil
+		if c09StoreErr && tk.Err != nil && fired(w) {
+			w.Probe("op-failed-on-store-error")
+			return nil
+		}
+		if c09StoreErr && fired(w) {
+			w.Probe("op-succeeded-despite-store-error")
+		}
 		if tk.Err != nil {
 			return Viol(prop, "op-failed", "DeleteRepo", target.Name, "fault-free DeleteRepo failed: %v", tk.Err)
 		}
 		for _, b := range []*simkit.Backend{d.Meta, d.VMet} {
 			for _, p := range []string{"bundles/", "labels/", "repos/"} {
 				if left := b.KeysWithPrefix(p + target.Name + "/"); len(left) > 0 {
+					if c09StoreErr && len(left) == 1 && left[0] == c09FailedDelete(w) {
+						w.Probe("failed-delete-ignored")
+						return nil
+					}
 					return Viol(prop, "delete-incomplete", "DeleteRepo", left[0], "after DeleteRepo(%s), %d objects remain under %s%s/ (first: %s)", target.Name, len(left), p, target.Name, left[0])
 				}
 			}
@@ -410,6 +468,7 @@ func runC09Ops(rc *RunCtx, op string) *simkit.Violation {
 		}
 		before := snapshotExcept(d, target.Name, newName)
 		w.Note("repos %v; RenameRepo(%s -> %s)", order, target.Name, newName)
+		c09PlanStoreErr(w, t, actor)
 		tk := w.Go(actor, "rename-repo", func() (interface{}, error) { return nil, core.RenameRepo(target.Name, newName, st) })
 		if v := w.Run(); v != nil {
 			v.Property = prop
@@ -418,12 +477,24 @@ func runC09Ops(rc *RunCtx, op string) *simkit.Violation {
 		if pv := taskProblem(prop, tk, "RenameRepo"); pv != nil {
 			return pv
 		}
+		w.Faults = nil
+		if c09StoreErr && tk.Err != nil && fired(w) {
+			w.Probe("op-failed-on-store-error")
+			return nil
+		}
+		if c09StoreErr && fired(w) {
+			w.Probe("op-succeeded-despite-store-error")
+		}
 		if tk.Err != nil {
 			return Viol(prop, "op-failed", "RenameRepo", target.Name, "fault-free RenameRepo failed: %v", tk.Err)
 		}
 		for _, b := range []*simkit.Backend{d.Meta, d.VMet} {
 			for _, p := range []string{"bundles/", "labels/", "repos/"} {
 				if left := b.KeysWithPrefix(p + target.Name + "/"); len(left) > 0 {
+					if c09StoreErr && len(left) == 1 && left[0] == c09FailedDelete(w) {
+						w.Probe("failed-delete-ignored")
+						return nil
+					}
 					return Viol(prop, "rename-left-old", "RenameRepo", left[0], "after RenameRepo, %d objects remain under the old name (first: %s)", len(left), left[0])
 				}
 			}
